@@ -37,7 +37,7 @@ func ruleCloseMustCall(r *Report) {
 		return
 	}
 	var openStore *ssa.Store
-	for _, st := range fieldStores(fn, "Store.open") {
+	for _, st := range deepFieldStores(fn, "Store.open") {
 		if b, isC := boolConst(st.Val); isC && !b {
 			openStore = st
 		}
@@ -46,15 +46,14 @@ func ruleCloseMustCall(r *Report) {
 		r.Bad(rule, "(*Store).Close/open=false", fn.Pos(), "Store.Close never sets Store.open = false: a second Close would close everything again")
 		return
 	}
-	fi := lockFlow(fn, LockSet{})
-	held := fi.at[openStore]
+	held := deepLockAt(fn, openStore)
 	r.Check(held["store.Store.stateLk"] == modeW, rule, "(*Store).Close/open=false-under-stateLk", instrPos(openStore),
 		"open is tested and cleared in one exclusive stateLk section (Close may be called repeatedly and concurrently)",
 		"Store.open is cleared without holding stateLk exclusively: two concurrent Close calls can both proceed")
-	guard := mkEdgeSet(openTrueEdges(fn, "Store.open"))
+	guard := mkEdgeSet(flagEdges(fn, []string{"Store.open"}, true))
 	targets := []string{"(*index.Index).Close", "(primary.PrimaryStorage).Close", "(*filecache.FileCache).Clear", "(*freelist.FreeList).Close"}
 	for _, t := range targets {
-		sites := callSites(fn, t)
+		sites := deepCallSites(fn, t)
 		if len(sites) == 0 {
 			r.Bad(rule, "(*Store).Close/calls-"+t, fn.Pos(), "Store.Close does not call "+t+": acknowledged data would stay unflushed or the component stays open")
 			continue
@@ -473,7 +472,16 @@ func ruleScanFromFirstFile(r *Report) {
 // helper used by several rules: is t a pointer to / the named module type
 func isNamed(t types.Type, name string) bool {
 	n := namedOf(t)
-	return n != nil && n.Obj().Name() == name
+	if n == nil {
+		return false
+	}
+	if n.Obj().Name() == name {
+		return true
+	}
+	if n.Obj().Pkg() != nil {
+		return canonTypes[n.Obj().Pkg().Path()+"."+n.Obj().Name()] == name
+	}
+	return false
 }
 
 func init() {
@@ -488,6 +496,8 @@ func init() {
 		ruleSpanPair(r)
 		rulePredictOpenOnly(r)
 		ruleGoHandshake(r)
+		// what Close leaves behind must be what Open reads back
+		r.support(grpFormat, []string{"config-wiring", "bucket-after-write", "firstfile-guard", "header-before-remove", "scan-from-firstfile"})
 	},
 		"Decides structural necessary conditions of 'clean Close + reopen preserves contents', not the behaviour: Store.Close reaches the Close of index, primary, file cache and freelist on every path behind the open guard, each component flushes before closing its file; the bucket snapshot is written (temp + rename) only after a successful flush and close, is only trusted when its size matches, and is removed once opened; writer, rescan and GC agree on the bucket position convention; every sequential scanner honours the deleted bit; recovery starts from the header's FirstFile; the primary resumes predicting at the end of the last file. Not covered: that rescan order reproduces the live table for every history, file contents.",
 		"dominance on the SSA CFG without pruning infeasible paths")
